@@ -71,6 +71,23 @@ def desugar(loc, relfile, fn_paths, rules, _pass=0):
                     records.append({"fn": fp, "rule": "D18 let _ = V.splice(LO..HI, ARG);  =>  V.pv_splice(LO, HI, ARG);   (spec/std_vec_splice.rs: the documented effect of Vec::splice whose iterator is dropped at once; panics unless LO <= HI <= len)",
                                     "original": src[v["call"][0]:v["call"][1]], "rewritten": new})
                     continue
+                if v["rule"] == "D22":
+                    recv = src[v["recv"][0]:v["recv"][1]]
+                    fpat = src[v["fpat"][0]:v["fpat"][1]]
+                    fbody = src[v["fbody"][0]:v["fbody"][1]]
+                    pat = src[v["pat"][0]:v["pat"][1]]
+                    body = src[v["body"][0]:v["body"][1]]
+                    tail = "pv_c" if src[v["call"][0]:v["call"][1]].rstrip().endswith("collect::<Vec<_>>()") else "pv_c.into()"
+                    if (tail != "pv_c" and "ret" in it and src[it["ret"][0]:it["ret"][1]].strip().startswith("Vec<")
+                            and src[v["call"][1]:it["body_close"]].strip() == ""):
+                        tail = "pv_c"
+                    # filter's closure sees `&&T`, map's closure sees `&T`
+                    new = (f"{{ let mut pv_c = Vec::new(); let mut pv_k: usize = 0; while pv_k < {recv}.len() {{ let {pat} = &{recv}[pv_k]; pv_k += 1; "
+                           f"if {{ let {fpat} = &{pat}; {fbody} }} {{ pv_c.push({body}); }} }} {tail} }}")
+                    rewrites.append((v["call"][0], v["call"][1], new))
+                    records.append({"fn": fp, "rule": "D22 X.iter().filter(|p| C).map(|q| E).collect()  =>  { let mut out = Vec::new(); index loop { let q = &X[k]; if { let p = &q; C } { out.push(E) } } out }",
+                                    "original": src[v["call"][0]:v["call"][1]], "rewritten": new})
+                    continue
                 if v["rule"] == "D21":
                     recv = src[v["recv"][0]:v["recv"][1]]
                     pat = src[v["pat"][0]:v["pat"][1]]
@@ -155,6 +172,10 @@ def desugar(loc, relfile, fn_paths, rules, _pass=0):
                     else:
                         bind = f"let {pat} = &{recv}[pv_k];"
                     tail = "pv_c" if src[v["call"][0]:v["call"][1]].rstrip().endswith("collect::<Vec<_>>()") else "pv_c.into()"
+                    # the collect is the tail expression of a function declared to return a Vec: the target is the vector itself
+                    if (tail != "pv_c" and "ret" in it and src[it["ret"][0]:it["ret"][1]].strip().startswith("Vec<")
+                            and src[v["call"][1]:it["body_close"]].strip() == ""):
+                        tail = "pv_c"
                     new = (f"{{ let mut pv_c = Vec::new(); let mut pv_k: usize = 0; while pv_k < {recv}.len() {{ {bind} pv_k += 1; pv_c.push({body}); }} {tail} }}")
                     rewrites.append((v["call"][0], v["call"][1], new))
                     records.append({"fn": fp, "rule": "D15 X.iter().map(|p| E).collect()  =>  { let mut out = Vec::new(); index loop { out.push(E) } out.into() }   (assumes FromIterator and From<Vec<_>> of the target agree)",
